@@ -2,29 +2,61 @@ package main
 
 import (
 	"fmt"
+	"os"
+	"sync"
 
 	"git.sr.ht/~rockorager/vaxis"
 
-	"verif/internal/memcon"
+	"verif/internal/harness"
 	"verif/internal/refterm"
 	"verif/internal/vxh"
 )
 
-func main() {
-	caps := refterm.CapsFromMask(29386)
-	fmt.Printf("%+v\n", caps)
-	sess, err := vxh.Start(5, 4, caps, vaxis.Options{}, func(t *refterm.Terminal, c *memcon.Console) {
-		c.OnWrite = func(p []byte) { fmt.Printf("  write: %s\n", refterm.Printable(p, 300)) }
-	})
+func one(i int) bool {
+	caps := refterm.CapsFromMask(0x1ffff)
+	sess, err := vxh.Start(80, 27, caps, vaxis.Options{}, nil)
 	if err != nil {
 		panic(err)
 	}
-	fmt.Println("unicode", sess.Vx.CanUnicodeCore(), "explicit", sess.Vx.CanExplicitWidth())
-	win := sess.Vx.Window()
-	fmt.Println(win.Size())
-	sess.Vx.Refresh()
-	child := win.New(1, 2, 4, 1)
-	child.Print(vaxis.Segment{Text: "\U0001F468‍\U0001F469‍\U0001F467"})
+	if _, ok := sess.Sync(); !ok {
+		fmt.Println("startup sync fail")
+		os.WriteFile("/tmp/dbg-stacks.txt", []byte(harness.AllStacks()), 0o644)
+		return false
+	}
 	sess.Vx.Render()
-	sess.Vx.Close()
+	sess.Con.SetSize(5, 5)
+	evs, ok := sess.Sync()
+	if !ok {
+		fmt.Println("sync fail")
+		return false
+	}
+	sess.Vx.Render()
+	w, h := sess.Vx.Window().Size()
+	if w != 5 || h != 5 {
+		fmt.Printf("iter %d: window %dx%d evs=%#v\n", i, w, h, evs)
+		return false
+	}
+	sess.Close()
+	return true
+}
+
+func main() {
+	var wg sync.WaitGroup
+	bad := 0
+	var mu sync.Mutex
+	for g := 0; g < 32; g++ {
+		wg.Add(1)
+		go func(g int) {
+			defer wg.Done()
+			for i := 0; i < 200; i++ {
+				if !one(g*1000 + i) {
+					mu.Lock()
+					bad++
+					mu.Unlock()
+				}
+			}
+		}(g)
+	}
+	wg.Wait()
+	fmt.Println("bad:", bad)
 }
